@@ -42,6 +42,20 @@ def check(ctx):
     if not L.ok:
         return
     body, an, g = L.body, L.an, L.g
+    # the Transfer is the last thing the connection does: after it was sent nothing is sent, received or waited for
+    RT = "C03/transfer-last"
+    tsites = L.sites("send:configuration::clientbound::Transfer")
+    ctx.floor(RT, "Transfer send sites in listen", len(tsites), 1, body.loc)
+    for tbb, e, st in tsites:
+        starts = []
+        for nb in body.blocks[tbb].term.successors():
+            starts += g.nodes_of_bb(nb)
+        reach = set(g.bb(n) for n in g.reachable(starts))
+        after = sorted(set(x for bb2, es in L.ev.items() if bb2 in reach for _, x, _ in es
+                           if x.startswith(("send:", "recv:", "rp:", "call:keep_alive", "call:discover", "call:filter", "call:select"))))
+        ctx.check(not after, RT, "C03/transfer-last/nothing-after", st,
+                  reason="after the Transfer was sent the handler still does %s: the Transfer is no longer the last packet of the connection" % after,
+                  detail="after Transfer: return (no further send / receive / keep-alive)")
     disc, filt, sel = L.call("DiscoveryAdapter::discover"), L.call("FilterAdapter::filter"), L.call("StrategyAdapter::select")
     ctx.exact(R, "discover call", len(disc), 1, body.loc)
     ctx.exact(R, "filter call", len(filt), 1, body.loc)
@@ -357,8 +371,7 @@ def locale_chain(ctx):
         ctx.check(always_before(ag, fb_, eb_), R, "C03/locale-chain/full-before-prefixes", site(ab, fb_),
                   reason="prefixes are pushed before the full locale", detail="full locale first")
         it_e = arg(aan, eb_, et_, 1)
-        okp = bool(calls_in(it_e, "Iterator::rev")) and bool(calls_in(it_e, "match_indices")) and \
-            bool(find_all(it_e, lambda x: x[0] == "const" and x[2] == "_"))
+        okp = _separators_last_first(it_e)
         maps = [c for c in calls_in(it_e, "Iterator::map") if len(c[3]) == 2 and flow.strip(c[3][1])[0] == "agg" and flow.strip(c[3][1])[1].startswith("closure:")]
         # the element closure: &locale[..i]
         elem_ok = False
@@ -395,9 +408,7 @@ def locale_chain(ctx):
                 base, rng = pe[3][0], flow.strip(pe[3][1])
                 if param_name(base) == "locale" and rng[0] == "agg" and rng[1].endswith("RangeTo"):
                     idx = rng[2][0][1]
-                    okp = bool(calls_in(idx, "Iterator::rev")) and bool(calls_in(idx, "match_indices"))
-                    us = find_all(idx, lambda x: x[0] == "const" and x[2] == "_")
-                    okp = okp and bool(us)
+                    okp = _separators_last_first(idx)
             ctx.check(okp, R, "C03/locale-chain/prefixes-longest-first", site(ab, pre[0][0]),
                       reason="prefix push is %s; expected &locale[..i] for i over match_indices('_') reversed" % render(pe, maxdepth=6),
                       detail="prefixes = locale[..i], i over '_' positions, last first")
@@ -422,6 +433,16 @@ def locale_chain(ctx):
     ctx.check(tmpl, R, "C03/locale-chain/template-by-key", lb.loc,
               reason="the returned text is not table[candidate].get(key) with parameters substituted",
               detail="text = messages[candidate][key] with replace(param_key, param_val)")
+
+
+def _separators_last_first(e):
+    """e iterates the positions of '_' in the locale from the last to the first: match_indices('_') reversed (once), or
+    rmatch_indices('_') not reversed"""
+    us = find_all(e, lambda x: x[0] == "const" and x[2] == "_")
+    fwd = [c for c in calls_in(e) if flow.short(c[1]).split("::")[-1] == "match_indices"]
+    bwd = [c for c in calls_in(e) if flow.short(c[1]).split("::")[-1] == "rmatch_indices"]
+    revs = len(calls_in(e, "Iterator::rev"))
+    return bool(us) and ((bool(fwd) and not bwd and revs == 1) or (bool(bwd) and not fwd and revs == 0))
 
 
 def _root_local(body, an, bb, op):
